@@ -16,8 +16,9 @@ from symx.npproxy import NPProxy
 from symx.prove import Prover
 from symx.runner import Acc
 from symx.selftest import sparse_selftest
-from harness.common import bound, z, fval, sym_patterns, isclose
+from harness.common import real_code, RealCodeRaised, bound, z, fval, sym_patterns, isclose
 from harness.geom import DirStub, position_spec
+from harness.fgstub import make_positiongrid
 
 PROPERTY = "C05"
 FUNCTIONS = ["molgri.space.fullgrid.PositionGrid._get_N_N_position_array", "PositionGrid.get_all_position_volumes",
@@ -87,12 +88,7 @@ def run_shape(shape):
     def body():
         with bound(F, bmat=sp.bmat, coo_array=sp.coo_array, diags=sp.diags, print=noprint, np=proxy), \
                 bound(TR, np=proxy, print=noprint):
-            pg = object.__new__(F.PositionGrid)
-            pg.o_rotations = o
-            pg.position_grid_cartesian = False
-            tg = object.__new__(TR.TranslationParser)
-            tg.trans_grid = sarr([SR(x) for x in r])
-            pg.t_grid = tg
+            pg = make_positiongrid(F, TR, o, sarr([SR(x) for x in r]))
             A, B, D = pg.get_adjacency_of_position_grid(), pg.get_borders_of_position_grid(), pg.get_distances_of_position_grid()
             A2 = pg._get_N_N_position_array("adjacency")
             return A, B, D, pg.get_all_position_volumes(), A2, len(pg)
@@ -156,13 +152,8 @@ def numeric_violations(shape, model):
     if any(x is None for x in r):
         r = list(np.cumsum([1.0 + 0.37 * k for k in range(n_t)]))
     o = DirStub(n_o, pattern, area, arc, ang, rsp, lambda l: np.array(l))
-    pg = object.__new__(F.PositionGrid)
-    pg.o_rotations = o
-    pg.position_grid_cartesian = False
-    tg = object.__new__(TR.TranslationParser)
-    tg.trans_grid = np.array(r, dtype=float)
-    pg.t_grid = tg
-    with contextlib.redirect_stdout(io.StringIO()):
+    pg = make_positiongrid(F, TR, o, np.array(r, dtype=float))
+    with contextlib.redirect_stdout(io.StringIO()), real_code():
         A, B, D = pg.get_adjacency_of_position_grid(), pg.get_borders_of_position_grid(), pg.get_distances_of_position_grid()
         V = pg.get_all_position_volumes()
     Rb, vol, adj, bor, dis = position_spec(n_o, n_t, area, arc, ang, r, zero=0.0)
@@ -186,10 +177,10 @@ def numeric_violations(shape, model):
 def replay(cex):
     try:
         bad = numeric_violations(cex["shape"], cex.get("model", {}))
-    except Exception as e:  # noqa: BLE001
-        if cex.get("kind") == "exception":
-            return {"reproduced": type(e).__name__ == cex.get("exc"), "detail": repr(e)}
-        return {"reproduced": True, "detail": f"real code raised {e!r}"}
+    except RealCodeRaised as e:
+        return {"reproduced": True, "detail": f"real code raised {e}"}
+    except Exception as e:  # noqa: BLE001 - the harness's own oracle failed on this model (overflow ...): not a verdict about the code
+        return {"reproduced": False, "detail": f"oracle could not be evaluated on this model: {e!r}"}
     return {"reproduced": bool(bad), "detail": f"failing on the real function: {bad[:8]}"}
 
 
